@@ -10,7 +10,9 @@
 //             listed point the tree is move-constructed into a fresh object, the old object is destroyed and the run continues with
 //             the new one (classes that are not move-constructible on this tree - see `lt_harness --traits` - ignore it)
 //   rk+ / rk- = ByRank: comparator owning heap state (ascending / descending); its destructor poisons and frees the state
-//   <extra> = decimal bit mask: 4 = the comparator handed to the constructor is a TEMPORARY copy that dies (destructor: state
+//   <extra> = decimal bit mask: 8 = REUSE: after the run the SAME tree object is used a second time - every player is registered
+//             again (player i now gets the sequence of player i+1, cyclically: other keys, other exhausted players), init(), second
+//             run; the output is "<first run> | <second run>", the model simply makes two fresh runs; 4 = the comparator handed to the constructor is a TEMPORARY copy that dies (destructor: state
 //             poisoned) before the tree is used - the tree must have copied it; 1 = init() is called twice in a row; 2 = guarded classes: after the run (no live player left)
 //             delete_min_insert(nullptr, true) + min_source() are called three more times (must not crash; results unspecified)
 //   class letter W (unstable unguarded classes only) = V, except that "beats the sentinel" means "is not greater than it" (as for
@@ -257,6 +259,14 @@ static void drive_general(Holder<LT>& lt, const std::vector<std::vector<T> >& se
     }
 }
 
+//! the sequences of the second use of a tree: player i gets the sequence of player i + 1 (cyclically)
+template <typename T>
+static std::vector<std::vector<T> > rotated(const std::vector<std::vector<T> >& seqs) {
+    std::vector<std::vector<T> > r;
+    for (size_t i = 0; i < seqs.size(); ++i) r.push_back(seqs[(i + 1) % seqs.size()]);
+    return r;
+}
+
 struct Flavor {
     char mode;       // G, U, V, W
     bool stable;
@@ -288,6 +298,12 @@ static void run_guarded(const std::vector<std::vector<T> >& seqs, const Cmp& cmp
                   : (g_extra & 4) ? std::unique_ptr<LT>(new LT(k, Cmp(cmp)))
                                   : std::unique_ptr<LT>(new LT(k, cmp)));
     drive(lt, seqs, true, f.store, out);
+    if (g_extra & 8) {
+        const std::vector<std::vector<T> > seqs2 = rotated(seqs);
+        std::string out2;
+        drive(lt, seqs2, true, f.store, out2);
+        out += " | " + out2;
+    }
 }
 
 template <typename LT, typename T, typename Cmp>
@@ -303,6 +319,15 @@ static void run_unguarded(const std::vector<std::vector<T> >& seqs, const T& sen
         drive_general(lt, seqs, sentinel, cmp, f.stable || f.mode == 'W', f.store, out);
     else
         drive(lt, seqs, false, f.store, out);
+    if (g_extra & 8) {
+        const std::vector<std::vector<T> > seqs2 = rotated(seqs);
+        std::string out2;
+        if (f.mode == 'V' || f.mode == 'W')
+            drive_general(lt, seqs2, sentinel, cmp, f.stable || f.mode == 'W', f.store, out2);
+        else
+            drive(lt, seqs2, false, f.store, out2);
+        out += " | " + out2;
+    }
 }
 
 template <typename T, typename Cmp>
